@@ -1110,7 +1110,9 @@ pub fn rec_expiry(args: &Args) {
         let tag = json!({"kind": "retention", "n": n});
         let body = body_bytes(100, 5);
         let p0 = mkreq(&ReqSpec { code: 1, typ: 0, mid: next_mid(), tok: vec![1], segs: &seg, b1: None, b2: Some((0, false, 0)), pay: vec![], extra: vec![] });
-        run_step(&mut h, &mut out, &json!({"op": "ireq", "ep": "keeper", "req": jpkt(&p0), "app": {"some": true, "v": {"code": 0x45, "pay": jbytes(&body), "opts": []}}}), &tag);
+        // (the reply says "Max-Age: 0" for every other n: of no concern to the handler's own retention)
+        let keeper_opts = if n % 2 == 1 { json!([[14, [[]]]]) } else { json!([]) };
+        run_step(&mut h, &mut out, &json!({"op": "ireq", "ep": "keeper", "req": jpkt(&p0), "app": {"some": true, "v": {"code": 0x45, "pay": jbytes(&body), "opts": keeper_opts}}}), &tag);
         let u0 = mkreq(&ReqSpec { code: 3, typ: 0, mid: next_mid(), tok: vec![2], segs: &up, b1: Some((0, true, 0)), b2: None, pay: body_bytes(16, 9), extra: vec![] });
         run_step(&mut h, &mut out, &json!({"op": "ireq", "ep": "keeper", "req": jpkt(&u0), "app": {"some": false}}), &tag);
         for i in 0..n {
@@ -1453,6 +1455,9 @@ pub fn rec_mixed(args: &Args) {
                         resp.message.header.code = 0x45.into();
                         resp.message.payload = a.body.clone();
                         if a.gen % 2 == 1 { resp.message.add_option(CoapOption::ETag, vec![a.gen as u8]); }
+                        // freshness information is the application's business: Max-Age 0 / 1 s on the reply says
+                        // nothing about how long the handler keeps its copy (that is the configured expiry)
+                        if a.gen % 3 == 1 { resp.message.add_option(CoapOption::MaxAge, if a.gen % 2 == 0 { vec![] } else { vec![1] }); }
                     }
                     let _ = h.iresp(&mut out, &a.ep, &mut req, &tag);
                 }
